@@ -409,12 +409,17 @@ int main(int argc, char** argv)
     printf("I\tself-test: planted shared counter: %d of %llu schedules differ from the sequential result (found, as required)\n", g_bad_schedules, (unsigned long long)g_execs);
     g_cnt.cases = g_cnt.transitions = g_cnt.nontrivial = 0; g_execs = 0; g_points_total = 0;
     hs_reset(); g_cnt.states = 0;
-    ownership_pass();
+    /* first-use drivers run before anything else has called the library in this process: their forked
+     * executions must start from a process in which no lazy initialisation has happened yet */
+    for (int pass = 0; pass < 2; pass++) {
+    if (pass == 1) ownership_pass();
     for (int di = 1; di < NDRIVERS; di++) {
         if (only >= 0 && di != only) continue;
         int fr = DRIVERS[di].fresh_process;
+        if (fr != (pass == 0)) continue;
         run_driver(di, 2, (thorough ? 4 : 3) - fr, 1);
         run_driver(di, 3, (thorough ? 3 : 2) - fr, 1);
+    }
     }
     sample("driver 'distinct CAN headers': 2 threads x {init; set identifier; set eff; get; get}; every hooked access to non-stack, non-read-only memory is a scheduling point; all schedules with <= 2 preemptions");
     sample("driver 'one read-shared RVF header': all threads read stream_id/avtp_timestamp/line_number/pixel_depth/tu from the same 32 bytes");
